@@ -371,8 +371,9 @@ inline Plan generate(sim::Rng& g, const GenOptions& go) {
         }
         if (go.aliasProb > 0 && g.chance(go.aliasProb) && allocated + 1 <= go.maxQubits + freeSlots) {
             std::vector<size_t> objs;
+            bool localTargets = g.chance(0.4);   // 'qubit b = a;' naming a local or a register element a second time
             for (size_t k = 0; k < live.size(); ++k)
-                if (live[k].h.k == 2) objs.push_back(k);
+                if (localTargets ? (live[k].h.k == 0 || live[k].h.k == 1) : live[k].h.k == 2) objs.push_back(k);
             if (!objs.empty()) {
                 o.kind = ALIAS;
                 o.h2 = live[objs[g.below(objs.size())]].h;
